@@ -21,8 +21,8 @@ def sh(cmd, cwd=None, env=None):
 
 def main():
     prop, x, needs = sys.argv[1], sys.argv[2], sys.argv[3]
-    wt = "/tmp/wt/%s" % prop
-    out = "/tmp/wt_out/%s" % prop
+    wt = os.environ.get("VF_WT", "/tmp/wt/%s") % prop
+    out = os.environ.get("VF_WT_OUT", "/tmp/wt_out/%s") % prop
     patch = os.path.join(out, "patch_%s.diff" % x)
     demo = os.path.join(out, "demo_%s.py" % x)
     src = os.path.join(wt, "src")
